@@ -100,9 +100,16 @@ def _collapse_snapshots(
     :return: collapsed sequence of snapshots
     """
     seen_names = set()  # type: Set[str]
-    collapsed = base_snapshots + snapshots
+    collapsed = []  # type: List[Snapshot]
 
-    for snap in collapsed:
+    for snap in base_snapshots + snapshots:
+        # The very same snapshot can be inherited along multiple paths in the class hierarchy
+        # (*e.g.*, in a diamond). This is not a conflict, and the snapshot needs to be captured only once.
+        if any(snap is another_snap for another_snap in collapsed):
+            continue
+
+        collapsed.append(snap)
+
         if snap.name in seen_names:
             raise ValueError(
                 "There are conflicting snapshots with the name: {!r}.\n\n"
